@@ -305,6 +305,11 @@ impl InMemoryZoneDiffBuilder {
         self.added.remove(&(owner.clone(), rtype));
     }
 
+    /// Forget that resource records were added at or below the given name.
+    pub fn clear_added_below(&mut self, name: &StoredName) {
+        self.added.retain(|(owner, _), _| !owner.ends_with(name));
+    }
+
     /// Forget that resource records were removed for the given owner and
     /// type.
     pub fn clear_removed(&mut self, owner: &StoredName, rtype: Rtype) {
